@@ -149,11 +149,12 @@ open Nima.Frag
 `Model/Cst.lean` (input: concrete-syntax trees with explicit gaps), `Model/FromCst.lean`
 (`NixSourceCode.from_cst`, `AttributeSet.from_cst`, `Binding.from_cst`, `NixList.from_cst`,
 `Parenthesis.from_cst`, `FunctionCall.from_cst`, `WithStatement.from_cst`, `Assertion.from_cst`,
-`Select.from_cst`, `FunctionDefinition.from_cst`, `UnaryExpression.from_cst`, `parse_delimited_sequence`)
+`Select.from_cst`, `FunctionDefinition.from_cst`, `UnaryExpression.from_cst`, `BinaryExpression.from_cst`, `parse_delimited_sequence`)
 and `Model/Rebuild.lean` (`rebuild` of the same classes, string level and piece level) model the parse
 side and the render side for files made of attribute sets with plain single-segment names, lists,
 parenthesised expressions `( e )`, function applications `f x` / `f x y`, `with e; body`,
-`assert e; body`, selects `e.a.b` / `e.a or d`, lambdas `x: body`, unary `!e` / `-e` and leaf values, nested to any depth, with
+`assert e; body`, selects `e.a.b` / `e.a or d`, lambdas `x: body`, unary `!e` / `-e`, binary operators `a + b` (not `//` / `++` with the operator on a line of its own) and leaf
+values, nested to any depth, with
 arbitrary whitespace and line / one-line block comments in every gap (inside parentheses and between
 function and argument too; the three gaps of a `with` / `assert` itself — after the keyword and around
 its `;` —, the gaps around the `.` / `or` of a select and around the `:` of a lambda hold whitespace only:
@@ -335,6 +336,20 @@ example : unarySample.flatten = "assert !f x; -\n  (a.b)".toList := by decide
 example : unarySample.wf = true ∧ unarySample.noLeadingWs = true := by decide
 example : unarySample.codeTokens =
     ["assert", "!", "f", "x", ";", "-", "(", "a", ".", "b", ")"].map String.toList := by decide
+
+/-- `a // b //⏎  { } ++ [ ]⏎  == !c`: operators of several kinds, the right operand / the operator on a new line -/
+def binarySample : File :=
+  { items := .elem []
+      (.bin (.bin (.leaf .ident "a".toList) [] " ".toList "//".toList [] " ".toList
+          (.bin (.leaf .ident "b".toList) [] " ".toList "//".toList [] "\n  ".toList
+            (.bin (.set false [] .nil " ".toList) [] " ".toList "++".toList [] " ".toList (.list .nil " ".toList))))
+        [] "\n  ".toList "==".toList [] " ".toList (.un ['!'] [] [] (.leaf .ident "c".toList))) .nil,
+    endGap := [] }
+
+example : binarySample.flatten = "a // b //\n  { } ++ [ ]\n  == !c".toList := by decide
+example : binarySample.wf = true ∧ binarySample.noLeadingWs = true := by decide
+example : binarySample.codeTokens =
+    ["a", "//", "b", "//", "{", "}", "++", "[", "]", "==", "!", "c"].map String.toList := by decide
 
 end Fragment
 
